@@ -294,6 +294,10 @@ static int r_step(int c)
 	} else if (RST->avail_in > k) {
 		v_violation(key, "avail_in grew; chunks [%s]", ex_path_str(&r_model));
 		bad = 1;
+	} else if ((ret == ISAL_NAME_OVERFLOW && R_NAME_NULL) || (ret == ISAL_COMMENT_OVERFLOW && R_COMM_NULL) || (ret == ISAL_EXTRA_OVERFLOW && R_EXTRA_NULL)) {
+		/* igzip_lib.h: a NULL buffer means the field is parsed and discarded; there is nothing that could overflow */
+		v_violation(key, "returned %d (overflow) for a field the caller asked to discard (buffer pointer NULL); chunks [%s]", ret, ex_path_str(&r_model));
+		bad = 1;
 	} else if (ret == ISAL_NAME_OVERFLOW && !R_NAME_NULL) {
 		RCUR.nb = R_GROW ? RCUR.nb + 1 : (uint32_t)strlen(RWANT.name) + 1;
 	} else if (ret == ISAL_COMMENT_OVERFLOW && !R_COMM_NULL) {
@@ -357,7 +361,7 @@ static void gzip_reader(void)
 		for (int ni = 0; ni < 4; ni++)
 			for (int ci = 0; ci < 4; ci++)
 				for (int hcrc = 0; hcrc < 2; hcrc++)
-					for (int bufmode = 0; bufmode < 7; bufmode++)
+					for (int bufmode = 0; bufmode < 8; bufmode++)
 						for (int grow = 0; grow < 2; grow++) {
 							if (!v_mine(unit++))
 								continue;
@@ -371,17 +375,17 @@ static void gzip_reader(void)
 							RH = hb;
 							size_t nl = names[ni] ? strlen(names[ni]) + 1 : 1, cl = comments[ci] ? strlen(comments[ci]) + 1 : 1, el = exl[ei] > 0 ? exl[ei] : 0;
 							/* buffer size modes: NULL, 0, 1, len-1, len (exact incl. NUL), len+1, generous */
-							R_NAME_NULL = R_COMM_NULL = R_EXTRA_NULL = bufmode == 0;
-							uint32_t nb = bufmode == 1 ? 0 : bufmode == 2 ? 1 : bufmode == 3 ? (uint32_t)(nl - 1) : bufmode == 4 ? (uint32_t)nl : bufmode == 5 ? (uint32_t)nl + 1 : 400;
-							uint32_t cb = bufmode == 1 ? 0 : bufmode == 2 ? 1 : bufmode == 3 ? (uint32_t)(cl - 1) : bufmode == 4 ? (uint32_t)cl : bufmode == 5 ? (uint32_t)cl + 1 : 400;
-							uint32_t eb = bufmode == 1 ? 0 : bufmode == 2 ? 1 : bufmode == 3 ? (uint32_t)(el ? el - 1 : 0) : bufmode == 4 ? (uint32_t)el : bufmode == 5 ? (uint32_t)el + 1 : 400;
-							if (bufmode == 0 && grow)
+							R_NAME_NULL = R_COMM_NULL = R_EXTRA_NULL = bufmode == 0 || bufmode == 7; /* 7: NULL pointers with capacity 0, as isal_gzip_header_init leaves them */
+							uint32_t nb = bufmode == 1 || bufmode == 7 ? 0 : bufmode == 2 ? 1 : bufmode == 3 ? (uint32_t)(nl - 1) : bufmode == 4 ? (uint32_t)nl : bufmode == 5 ? (uint32_t)nl + 1 : 400;
+							uint32_t cb = bufmode == 1 || bufmode == 7 ? 0 : bufmode == 2 ? 1 : bufmode == 3 ? (uint32_t)(cl - 1) : bufmode == 4 ? (uint32_t)cl : bufmode == 5 ? (uint32_t)cl + 1 : 400;
+							uint32_t eb = bufmode == 1 || bufmode == 7 ? 0 : bufmode == 2 ? 1 : bufmode == 3 ? (uint32_t)(el ? el - 1 : 0) : bufmode == 4 ? (uint32_t)el : bufmode == 5 ? (uint32_t)el + 1 : 400;
+							if ((bufmode == 0 || bufmode == 7) && grow)
 								continue;
 							R_GROW = grow;
 							if (grow && (nl > 6 || cl > 6 || el > 6) && bufmode < 3)
 								continue; /* +1 growth from tiny buffers on long fields: many overflows, covered by the short fields */
 							snprintf(rdesc, sizeof rdesc, "extra=%d name=%d comment=%d hcrc=%d buffers=%s growth=%s", exl[ei], ni, ci, hcrc,
-								 bufmode == 0 ? "NULL" : bufmode == 1 ? "0" : bufmode == 2 ? "1" : bufmode == 3 ? "len-1" : bufmode == 4 ? "len" : bufmode == 5 ? "len+1" : "400", grow ? "+1" : "to-fit");
+								 bufmode == 0 ? "NULL" : bufmode == 7 ? "NULL/capacity-0" : bufmode == 1 ? "0" : bufmode == 2 ? "1" : bufmode == 3 ? "len-1" : bufmode == 4 ? "len" : bufmode == 5 ? "len+1" : "400", grow ? "+1" : "to-fit");
 							isal_inflate_init(RST);
 							isal_gzip_header_init(&RHD);
 							memset(RNAME, 0xCC, sizeof RNAME); memset(RCOMM, 0xCC, sizeof RCOMM); memset(REXTRA, 0xCC, sizeof REXTRA);
